@@ -70,11 +70,36 @@ def check_writer_set_order():
     return obs
 
 
+# diagnostic builders that consume a set order-sensitively, with the reason that order cannot reach the text
+DIAG_ORDER_PINNED = {
+    ("mypy/errors.py", "IterationDependentErrors.yield_uselessness_error_infos"): "ASSUMED: the yielded infos are re-ordered by line/column before they are printed (Errors.sort_messages); ties on one position are not examined",
+    ("mypy/errors.py", "IterationDependentErrors.yield_nonoverlapping_types"): "ASSUMED: as above, consumers sort by position",
+    ("mypy/errors.py", "Errors.blocker_module"): "ASSUMED: at most one not-yet-flushed file has blockers when this is asked (the build stops at the first blocking file)",
+}
+
+
+def check_diag_set_order():
+    from frames import setorder
+
+    seen, found = setorder.scan_diagnostics()
+    if seen < 150:
+        return [{"name": "diag-set-order/functions-found", "status": "unknown", "where": f"only {seen} functions found in {setorder.DIAG_MODULES}: layout changed?"}]
+    obs = [{"name": "diag-set-order/functions-scanned", "status": "discharged", "where": f"{seen} functions of {', '.join(setorder.DIAG_MODULES)}"}]
+    for rel, qual, ln, txt in found:
+        if (rel, qual) in DIAG_ORDER_PINNED:
+            obs.append({"name": f"diag-set-order/pinned/{qual}", "status": "discharged", "where": f"{rel}:{ln} {txt}", "detail": DIAG_ORDER_PINNED[(rel, qual)]})
+            continue
+        obs.append({"name": f"diag-set-order/no-container-order-in-message/{qual}", "status": "refuted", "where": f"{rel}:{ln} {txt}",
+                    "detail": "a set is turned into message text (or a sequence of messages) in container order: the diagnostics depend on PYTHONHASHSEED", "key": f"diag-set-order:{qual}:{txt}", "confirmed": True})
+    return obs
+
+
 def set_order_targets():
     return [StaticCheck("writers.no_set_in_container_order", check_writer_set_order,
                         note="syntactic: set-valued attributes / locals (by annotation or construction) consumed order-sensitively inside write / serialize functions")]
 
 
 def targets(tier):
-    return set_order_targets() + [StaticCheck("detopts.select_options_affecting_cache", check_select_options,
+    return set_order_targets() + [StaticCheck("diagnostics.no_set_in_container_order", check_diag_set_order,
+                        note="syntactic: set-valued expressions consumed order-sensitively in mypy/errors.py and mypy/messages.py")] + [StaticCheck("detopts.select_options_affecting_cache", check_select_options,
                         note="set-valued options are found by reflection on Options(); the loop shape is matched syntactically (another shape is reported undecided, not passed)")]
